@@ -59,6 +59,9 @@ def main(tier, seed, replay=None):
             # a failing derivative: absent Jacobian under every schedule
             c["faults"] = {"deriv": [[rng.randrange(c["meta"]["P"]), 0]]}
             c["ops"] = [["jac"], ["observe"], ["jac"]] + c["ops"]
+        if i % 4 == 1:
+            # the other conversion: into_parallel must not change anything observable either
+            c["ops"] = [(["into_par"] if o[0] == "into_seq" else o) for o in c["ops"]]
         seq = copy.deepcopy(c)
         seq["ctor"] = SEQ_OF[ctor]
         pars = []
@@ -100,7 +103,7 @@ def main(tier, seed, replay=None):
         "rule": "problems built through new_parallel / mrhs_parallel, run in dedicated rayon pools of %s threads with and without yields "
                 "injected into the derivative closures, next to the sequentially built problem on the same inputs: histories of updates with "
                 "residuals, coefficients and Jacobians, whole fits (termination, evaluations, parameters, coefficients, objective, best "
-                "fit), a failing derivative, and conversion into_sequential followed by further queries — every observable compared "
+                "fit), a failing derivative, and conversion into_sequential / into_parallel followed by further queries — every observable compared "
                 "bit for bit" % threads,
         "comparisons_per_pool_size": {str(k): v for k, v in sorted(tcount.items())}})
     run.samples = [{"ctor": p[0]["ctor"], "threads": p[0]["threads"], "ops": [o[0] for o in p[0]["ops"]]} for s, p in groups[:3]]
